@@ -105,6 +105,7 @@ structure DirRel (oS oR : Obj) (fwd bwd : List Msg) (w r : Bytes) (eof : Bool) (
   hacc : l.accepted = w
   hdel : l.delivered = r
   heof : l.eofSeen = eof
+  hrx : oR.rxOpen = false → oR.senderAlive = false
 
 /-! ### Phases -/
 
@@ -151,7 +152,8 @@ structure HalfOpen (x : Nat) (va vb : EV) (fab fba : List Msg) : Prop where
     (∀ m ∈ rest, m.isConnect = false ∧ ackOf m = none) ∧
     oP.cap = vb.opts.rwnd ∧ oP.threshold = thresholdFor vb.opts va.opts.rwnd ∧
     oP.rxq = [] ∧ oP.buf = [] ∧ oP.recvdSince = 0 ∧ oP.senderAlive = true ∧
-    DirRel oP (newObj va.opts x vb.opts.rwnd [] 0) rest [] (vb.wlog j) [] false l
+    DirRel oP (newObj va.opts x vb.opts.rwnd [] 0) rest [] (vb.wlog j) [] false l ∧
+    vb.rlog j = [] ∧ vb.eof j = false
 
 structure Linked (x : Nat) (va vb : EV) (fab fba : List Msg) : Prop where
   ra : ¬ va.inRng
